@@ -1,5 +1,5 @@
 """Shared machinery for the per-property checks: builds, running both sides, evidence."""
-import shutil, fcntl, hashlib, json, os, re, shutil, subprocess, sys, time
+import random, shutil, fcntl, hashlib, json, os, re, shutil, subprocess, sys, time
 
 VERIF = os.path.dirname(os.path.dirname(os.path.abspath(__file__)))
 # VERIF_REPO / VERIF_BUILD are used only by self-tests that point the machinery at a scratch copy of
@@ -482,3 +482,105 @@ def spec_batch(queries, tag="spec"):
         for j in range(n):
             answers[i + j * shards] = lines[j]
     return answers
+
+
+# ---------------------------------------------------------------- the extracted model against evaluation inside Coq
+
+def coq_recheck(ctx, tag, cases, limit=None):
+    """Guard against extraction and driver bugs (DESIGN 2.4): a sample of the cases just run through the extracted OCaml
+    model is evaluated again by `vm_compute` inside coqc -- `run_src` on the source BYTES the implementation compiled, so
+    for statement-level cases this also ties the text rendering to the syntax tree the extracted model was given -- and
+    must give the same outcome class, error position and (partial) pcap.  Recorded as one proof obligation."""
+    import re
+    if limit is None:
+        limit = int(os.environ.get("VERIF_RECHECK", "300" if ctx.thorough else "32"))
+    pick = []
+    for c in cases:
+        m = getattr(c, "model", None)
+        if not m or m.get("status") not in ("ok", "err"):
+            continue
+        src = c.src if getattr(c, "src", None) is not None else (c.text.encode("utf-8") if isinstance(c.text, str) else c.text)
+        if src is None or len(src) > 6000 or len(m.get("pcap") or b"") > 40000:
+            continue
+        if sum(len(v) for v in (c.files or {}).values()) > 4000:
+            continue
+        pick.append((c, src))
+    if not pick:
+        return
+    rng = random.Random(len(pick) * 7919 + len(tag))
+    if len(pick) > limit:
+        pick = rng.sample(pick, limit)
+    wd = os.path.join(BUILD, "work", "recheck-%s-%d" % (tag, os.getpid()))
+    shutil.rmtree(wd, ignore_errors=True)
+    os.makedirs(wd)
+    lst = lambda b: "[" + ";".join(str(x) for x in b) + "]"
+    shards = min(NPROC, max(1, len(pick) // 12))
+    procs = []
+    for k in range(shards):
+        part = pick[k::shards]
+        rows = []
+        for c, src in part:
+            m = c.model
+            base = None
+            for fn in (c.files or {}):
+                base = True
+            # data files are named by absolute path inside the work directory of the run, exactly as the driver was told
+            files = []
+            for fn, content in (c.files or {}).items():
+                pth = os.path.join(getattr(c, "_wd", ""), fn) if getattr(c, "_wd", None) else fn
+                files.append("(%s, %s)" % (lst(pth.encode()), lst(content)))
+            if m["status"] == "ok":
+                want = "(0, 0, 0, %s)" % lst(m["pcap"] or b"")
+                how = "proj"
+            else:
+                # (the position is comparable only when the extracted model lexed the same bytes itself)
+                l, col = (m["loc"] or (0, 0)) if getattr(c, "src", None) is not None else (0, 0)
+                if m.get("pcap") is None:
+                    want, how = "(1, %d, %d, [])" % (l, col), "proj_nopcap"
+                else:
+                    want, how = "(1, %d, %d, %s)" % (l, col, lst(m["pcap"])), "proj"
+            if m["status"] == "err" and getattr(c, "src", None) is None:
+                how += "_noloc"
+            rows.append("  eqr (%s (run_src [%s] %s)) %s" % (how, "; ".join(files), lst(src), want))
+        v = os.path.join(wd, "cases%d.v" % k)
+        with open(v, "w") as f:
+            f.write("""From RS Require Import Base.Bytes Base.Outcome Interp.Eval Interp.Run.
+From Coq Require Import NArith List Bool. Import ListNotations.
+Open Scope N_scope.
+Definition R := (N * N * N * bytes)%%type.
+Definition proj (r : run_result) : R := match r with RunOk p _ _ => (0, 0, 0, p) | RunErr _ l p => (1, fst l, snd l, p) | RunPanic _ => (2, 0, 0, []) end.
+Definition proj_nopcap (r : run_result) : R := match proj r with (a, b, c, _) => (a, b, c, []) end.
+Definition proj_noloc (r : run_result) : R := match proj r with (a, _, _, p) => (a, 0, 0, p) end.
+Definition proj_nopcap_noloc (r : run_result) : R := match proj r with (a, _, _, _) => (a, 0, 0, []) end.
+Fixpoint eqb (a b : bytes) : bool := match a, b with [], [] => true | x :: a', y :: b' => N.eqb x y && eqb a' b' | _, _ => false end.
+Definition eqr (x y : R) : bool := match x, y with (a, b, c, p), (a', b', c', p') => N.eqb a a' && N.eqb b b' && N.eqb c c' && eqb p p' end.
+Definition checks : list bool := [
+%s
+].
+Eval vm_compute in checks.
+""" % ";\n".join(rows))
+        cmd = "ulimit -s unlimited 2>/dev/null; ulimit -v 12000000; exec timeout 900 coqc -noglob -Q %s/theories RS -Q %s/gen RSGen %s" % (COQ, COQ, v)
+        procs.append((part, subprocess.Popen(cmd, shell=True, cwd=wd, stdout=subprocess.PIPE, stderr=subprocess.PIPE)))
+    bad, n, err = [], 0, ""
+    for part, pr in procs:
+        so, se = pr.communicate()
+        flags = re.findall(r"\b(true|false)\b", so.decode())
+        if pr.returncode != 0 or len(flags) != len(part):
+            err = (se.decode() or so.decode())[-400:]
+            bad += [c.name for c, _ in part][:3]
+            continue
+        for (c, _), fl in zip(part, flags):
+            n += 1
+            if fl != "true":
+                bad.append(c.name)
+    if bad:
+        # keep the evidence: source and model outcome of the first differing case
+        for c, src in pick:
+            if c.name == bad[0]:
+                err += " | source %s | model %s %s pcap %d bytes" % (src[:300].hex(), c.model.get("status"), c.model.get("loc"),
+                                                                    len(c.model.get("pcap") or b""))
+    if not os.environ.get("VERIF_RECHECK_KEEP"):
+        shutil.rmtree(wd, ignore_errors=True)
+    ctx.dist["rechecked_inside_coq"] = ctx.dist.get("rechecked_inside_coq", 0) + n
+    ctx.obligation("extracted model = evaluation inside Coq (vm_compute of run_src on the compiled source bytes): %d sampled cases of %s"
+                   % (len(pick), tag), not bad, ("differs on " + ", ".join(bad[:5]) + " " + err) if bad else "")
